@@ -338,7 +338,10 @@ def run_ssf(ctx, spec):
     for i in range(n):
         p1 = ctx.rng.uniform(0.1e6, 5e6)
         two = i % 2 == 1
-        p2 = ctx.rng.uniform(0.1e6, p1) if two else None
+        # second-stage pressure below the first (the usual arrangement) or anywhere in the stated range
+        p2 = (ctx.rng.uniform(0.1e6, p1) if i % 4 == 1 else ctx.rng.uniform(0.1e6, 5e6)) if two else None
+        if two:
+            ctx.see('two_stage_order', 'p2<p1' if p2 < p1 else 'p2>=p1')
         case = {'clause': 'separated steam fraction', 'p1': p1, 'p2': p2}
         prev = None
         bad = False
